@@ -42,6 +42,8 @@ def mk_items(spec):
                           "rawtuple": [(), tuple(keys), tuple(keys[:2]), ()][v]}[kind])
             continue
         it = {"keys": keys, "mult": None, "ngram": None, "ret": ret, "mode": "ok", "idx": i}
+        if (i + ret) % 3 == 0:  # record counts returned as numpy integers (e.g. the result of an array .sum())
+            it["ret_type"] = ["i64", "u32", "u8", "i32", "u64"][(i + len(keys)) % 5]
         if kind == "dict":
             it["mult"] = [1 + (m % 9) for m in (mult + [3] * len(keys))[: len(keys)]]
         elif kind == "ngram":
